@@ -949,7 +949,9 @@ func (s *mvSess) judgeGet(tx *mvTxn, key []byte, out string, fail func(string, s
 		if s.managed && s.spec.dupVersion(key) && strings.HasPrefix(out, "found ") && s.l0l0Seen {
 			// the same (key, version) was written twice and an L0->L0 compaction has re-sorted L0
 			tag = "F2:l0-resort-duplicate-version"
-		} else if s.managed && s.spec.below[string(key)] && s.spec.compacted && strings.HasPrefix(out, "found ") {
+		} else if s.managed && s.spec.below[string(key)] && s.spec.compacted && strings.HasPrefix(out, "found ") && want == "notfound" {
+			// F27 is exactly: the history says absent (a tombstone / expired version is the newest one
+			// at or below the read timestamp) and a version written below it shows up
 			tag = "F27:write-below-existing-version"
 		} else if s.managed && s.spec.belowDrop[string(key)] && out == "notfound" {
 			tag = "F27b:write-below-dropped-tombstone"
@@ -1100,7 +1102,7 @@ func (s *mvSess) judgeStable(what string, pre []readSnap, fail func(string, stri
 			if s.managed && s.spec.dupVersion([]byte(r.key)) && s.l0l0Seen && now != "absent" && r.res != "absent" &&
 				strings.SplitN(now, ":", 2)[0] == strings.SplitN(r.res, ":", 2)[0] {
 				tag = "F2:l0-resort-duplicate-version"
-			} else if s.managed && s.spec.below[r.key] && now != "absent" {
+			} else if s.managed && s.spec.below[r.key] && now != "absent" && r.res == "absent" {
 				// a version written below an existing (dead) version of the key became visible
 				tag = "F27:write-below-existing-version"
 			}
@@ -1117,7 +1119,7 @@ func (s *mvSess) judgeStable(what string, pre []readSnap, fail func(string, stri
 				fail("F2:l0-resort-duplicate-version", fmt.Sprintf("after %s key %s at ts=%d reads %q, history says %q", what, hx([]byte(r.key)), r.ts, now, want))
 				return
 			}
-			if s.managed && s.spec.below[r.key] && s.spec.compacted && now != "absent" {
+			if s.managed && s.spec.below[r.key] && s.spec.compacted && now != "absent" && want == "absent" {
 				fail("F27:write-below-existing-version", fmt.Sprintf("after %s key %s at ts=%d reads %q, history says %q", what, hx([]byte(r.key)), r.ts, now, want))
 				return
 			}
